@@ -404,6 +404,7 @@ def install():
         before = self.current_capacity
         out = o_hrm(self, observation)
         p.call("hot_remove", p.sim.env.now, obs=observation.name, ret=out,
+               oid=id(observation),
                freed=self.current_capacity - before,
                size=observation.total_data_size)
         return out
@@ -420,7 +421,7 @@ def install():
         # independent record of "this observation was handed to the
         # scheduler for processing" (C19's notion of queued)
         p.call("alloc_handed", self.env.now,
-               obs=getattr(observation, "name", None))
+               obs=getattr(observation, "name", None), oid=id(observation))
 
         def make():
             return p.rec("alloc_tasks", self.env,
